@@ -47,6 +47,15 @@ impl Secp256K1Verifier {
       .try_ec_params()
       .map_err(|_| SignatureVerificationErrorKind::UnsupportedKeyType)?;
 
+    // The key must be on the curve of the algorithm: a key that declares another curve is not a key for it, whatever
+    // its coordinates happen to decode to.
+    if !matches!(params.try_ec_curve(), Ok(identity_verification::jwk::EcCurve::Secp256K1)) {
+      return Err(
+        SignatureVerificationError::new(SignatureVerificationErrorKind::UnsupportedKeyType)
+          .with_custom_message("expected a key on the secp256k1 curve"),
+      );
+    }
+
     let x: Vec<u8> = jwu::decode_b64(&params.x).map_err(|err| {
       SignatureVerificationError::new(SignatureVerificationErrorKind::KeyDecodingFailure).with_source(err)
     })?;
